@@ -165,6 +165,10 @@ func (r *Run) ConfFromParams() Conf {
 		TLS:    r.Spec.P("tls", "none"),
 		Launch: r.Spec.P("launch", "cmd"),
 		USC:    r.Spec.P("usc", ""),
+		Timeout: func() time.Duration {
+			d, _ := time.ParseDuration(r.Spec.P("starttimeout", "0"))
+			return d
+		}(),
 	}
 }
 
@@ -256,6 +260,10 @@ func (r *Run) ClientConfig(c Conf) *plugin.ClientConfig {
 		r.W.Mkdir("/run")
 		r.W.Mkdir("/run/hostsock")
 		cfg.UnixSocketConfig = &plugin.UnixSocketConfig{TempDir: "/run/hostsock"}
+	}
+	if r.Spec.P("dialblock", "") == "1" && c.Proto == "grpc" {
+		// a host that asks gRPC for blocking dials
+		cfg.GRPCDialOptions = append(cfg.GRPCDialOptions, grpc.WithBlock())
 	}
 	if c.TweakClient != nil {
 		c.TweakClient(cfg)
